@@ -1,6 +1,6 @@
 """C01 — GJK distance: feasible, consistent, optimal (structural clauses)."""
 from ..core.report import DOMAIN_D
-from ..rules import mink, simplex, loops, buffers
+from ..rules import mink, simplex, loops, buffers, clip
 
 J = "distance3d.gjk._gjk_jolt"
 
@@ -12,7 +12,7 @@ def run(idx, rep, tier):
         "and compacted together (R-PAR, R-COMPACT); closest points apply the weights of (Y[0..k]) to P[0..k] and Q[0..k] in "
         "order (R-BARY); sub-solver feature masks are remapped to the right vertices for every mask (R-BITMAP), returned "
         "masks name the vertices the point is built from (R-MASKPOINT), the plane tests guard the face they test (R-PLANES), "
-        "the k-point solver gets Y[0..k-1] (R-SOLVERDISPATCH); loop discipline (R-LOOP). |a-b| = d within 1e-5 L, optimality "
+        "the k-point solver gets Y[0..k-1] (R-SOLVERDISPATCH); loop discipline (R-LOOP); the early `Clipped` exit requires the new support point behind the origin plane (R-CLIPGUARD). |a-b| = d within 1e-5 L, optimality "
         "and d>0 <=> separated are NOT decided.")
     rep.assumptions = DOMAIN_D
     scope = [J, "distance3d.minkowski"] if tier == "quick" else None
@@ -25,3 +25,4 @@ def run(idx, rep, tier):
     simplex.r_solverdispatch(idx, rep)
     buffers.r_compact(idx, rep, modules={J}, floor=4)
     loops.r_loop(idx, rep, [J], floor=5)
+    clip.r_clipguard(idx, rep)
